@@ -20,6 +20,12 @@ PROP = dict(
          "restarted (same gossip, restarted right after it or right before the confirming momentum), late without gossip momentum by momentum, late with the WHOLE history in one InsertChain call, late in batches of 31..256, "
          "late catching up from 1 / 2 / 3 / 10 election ticks behind in one call each (tick = NodeCount * BlockTime = 30 momentums; exactly k ticks, one momentum more, up to a tick more); "
          "oracles producer-momentum-accepted, schedule-independent-acceptance (same InsertChain verdicts and same frontier as the twin for every schedule), frontier hash and full ledger dump equal to the producer's. "
+         "Every history (short and long) also gets the POOL-DIFFERS family: a forge node (follows the chain momentum by momentum, pool holds genuine blocks only when a momentum arrives) signs with the owners' keys through Supervisor.GenerateFromTemplate "
+         "blocks the producer's chain does not contain: competing versions of user blocks for the same account height (two receives of one send, two sends: newer / older MomentumAcknowledged, other data, other amount, more fused plasma = higher pool priority; also of an account's first block "
+         "and on top of genuine blocks of the same momentum), 1..2 blocks signed on top of the unconfirmed version, stray transfers / receives on the head of an account (the chain confirms another block at that height later, or never any); "
+         "a receiver (momentum by momentum, or batches of 1..6 cut where gossip is due) gets them through AddAccountBlocks anywhere between 'valid for the first time' and 'right before the momentum of the confirmed version' - only the unconfirmed version, "
+         "unconfirmed first then confirmed, confirmed (and its genuine successors) first then unconfirmed; oracles producer-momentum-accepted (failing input: every foreign block given to the receiver for the refused momentum / still in its pool), "
+         "schedule-independent-acceptance against the forge, frontier hash and ledger dump equal to the producer's; each is a replay case of the model (foreign block = Gossip of an identifier that is not on the chain). "
          "patch: random Put/Delete sequences over 1..6 keys (empty key, prefixes, random bytes) on db.NewMemDB(), Changes() vs model and vs the same final content written once in random order.",
     explanation="Theorems: the change set is a function of the final overlay (sorted, last write per key); for every honest chain and any two schedules without variant gossip the receiving node's store equals the producer's state at that height "
                 "(so equal stores and equal answers), and the producer's next momentum is always accepted; with one gossiped variant of a user block both fail (F10, refuted by witness). "
@@ -33,6 +39,6 @@ META = dict(
     text="Machine-checked Coq theorems: canonicity of the change set over all write sequences, and by induction over arbitrary delivery schedules (batches, gossip, restarts) store equality with the producer for every honest chain; "
          "tied on every run to real nodes replaying a producer's history under random schedules with full ledger dumps compared.",
     design_ref="DESIGN.md section 5, C02",
-    note="Known finding user-block-changeshash-variant (F10, shared with C13): reproduced on every run; C02_variant_refuted + the two _partial theorems (no variant gossip). Historical-view equality of the versioned store itself is C07. All theorems closed under the global context.",
+    note="Fixed in /repo on the way: 417e0a5 (accountPool.canRollback refused to replace a pooled competing version of an account's FIRST block: the node refused the confirmed momentum until restart). Known finding user-block-changeshash-variant (F10, shared with C13): reproduced on every run; C02_variant_refuted + the two _partial theorems (no variant gossip). Historical-view equality of the versioned store itself is C07. All theorems closed under the global context.",
     technique="Coq proof (induction over schedules, sorted-list extensionality) + differential correspondence check on real nodes with full store dumps",
 )
